@@ -435,6 +435,41 @@ func shortWrites(base string, scenario string, size int, seed int64) {
 	}
 }
 
+// ---------- index write cut short, then halt ----------
+
+// indexCuts: the one write that publishes an entry stops after L bytes (a real short write: RLIMIT_FSIZE is
+// lowered once the index file is open) and the process halts before its next file operation, so that no
+// clean-up runs. The index file then holds a prefix of the new entry followed by the rest of the old one
+// (entries have a fixed width and are overwritten in place).
+func indexCuts(base string, scenario string, size int, seed int64, stride int) {
+	for L := 0; L <= 176; L += stride {
+		e, err := setup(base, atomic.AddInt64(&caseCounter, 1), scenario, size, seed, false)
+		if err != nil {
+			run.Inconclusive("setup: " + err.Error())
+			return
+		}
+		cmd := exec.Command(childBin, e.childArgs(fmt.Sprintf("indexcut=%d", L))[1:]...)
+		cmd.Env = append(os.Environ(), "GOMAXPROCS=1")
+		out, _ := cmd.CombinedOutput()
+		run.Eval(1)
+		if !strings.HasPrefix(string(out), "HALTED") {
+			run.Inconclusive(fmt.Sprintf("index-cut child did not halt at the index write: %q", strings.TrimSpace(string(out))))
+			os.RemoveAll(e.dir)
+			continue
+		}
+		fault := fmt.Sprintf("index entry write cut short after %d bytes, then halt (old target size %d, new size %d)", L, len(e.oldTarget), size)
+		verify(e, fault, false, func(kind, detail string) {
+			if limited(kind + "/indexcut") {
+				return
+			}
+			run.Violation(fmt.Sprintf("%s %s size=%d indexcut=%d seed=%d", kind, scenario, size, L, seed), fmt.Sprintf("%s after %s in scenario %s: %s", kind, fault, scenario, detail), fcase{kind, scenario, size, fault, nil, nil, detail})
+		})
+		run.Distinct(fmt.Sprintf("indexcut|%s|%d|%d|%d", scenario, size, seed%4, L))
+		run.Count("index_cut_runs", 1)
+		os.RemoveAll(e.dir)
+	}
+}
+
 // ---------- hostile sources (in-process) ----------
 
 type hostile struct {
@@ -812,7 +847,7 @@ func main() {
 	vlib.Main("C12", "fault_enumeration", 15*time.Minute, func(r *vlib.Run) {
 		run = r
 		childBin = filepath.Join(os.Getenv("VERIF_BUILD"), "c12child")
-		r.Rule("configurations = scenario (new, overwrite, restore-same with a sharing entry, stale index entry, pre-damaged output: wrong bytes / shorter / longer) x payload size (0,1,2,4096,32767,32768,32769,160KiB) x source (memory / real file). For each: a dry run under strace lists every file syscall Put performs between two markers; then one run per syscall with SIGKILL at its entry (= halt between operations) and one per (syscall, errno). Plus RLIMIT_FSIZE short writes at 10 offsets, in-process hostile ReadSeekers (error / early EOF / flipped byte / failing Seek / shorter / longer second pass; half of them on a cache whose files were last touched 61 min / 3 h / 50 h ago), and SIGKILL of a looping writer at random times. Non-trivial/distinct = distinct (configuration, fault kind, syscall index) whose injection was confirmed, from the injected run's own trace, to have landed on the intended syscall inside Put.")
+		r.Rule("configurations = scenario (new, overwrite, restore-same with a sharing entry, stale index entry, pre-damaged output: wrong bytes / shorter / longer) x payload size (0,1,2,4096,32767,32768,32769,160KiB) x source (memory / real file). For each: a dry run under strace lists every file syscall Put performs between two markers; then one run per syscall with SIGKILL at its entry (= halt between operations) and one per (syscall, errno). Plus RLIMIT_FSIZE short writes at 10 offsets, the index entry's write cut short after each of its 176 byte offsets followed by a halt (overwrites towards a larger and a smaller output at every offset, other starting states sampled), in-process hostile ReadSeekers (error / early EOF / flipped byte / failing Seek / shorter / longer second pass; half of them on a cache whose files were last touched 61 min / 3 h / 50 h ago), and SIGKILL of a looping writer at random times. Non-trivial/distinct = distinct (configuration, fault kind, syscall index) whose injection was confirmed, from the injected run's own trace, to have landed on the intended syscall inside Put.")
 		r.Assume("crash = the process stops (SIGKILL); page-cache / power loss is out of scope (the code does not fsync)")
 		r.Assume("the cache keeps no in-memory state, so opening the directory afresh in the harness process is equivalent to a fresh verifier process")
 		if _, err := exec.LookPath("strace"); err != nil {
@@ -864,6 +899,16 @@ func main() {
 			}
 		}
 		vlib.Parallel(len(swJobs), W, func(i int) { shortWrites(base, swJobs[i].scenario, swJobs[i].size, int64(500+i)) })
+		// index write cut short + halt: every offset for an overwrite with a larger (more digits) and with a
+		// smaller output, sampled offsets for the other starting states
+		type icfg struct {
+			scenario string
+			size     int
+			seed     int64
+			stride   int
+		}
+		icJobs := []icfg{{"overwrite", 40000, 2, 1}, {"overwrite", 3, 3, 1}, {"overwrite", 4096, 1, r.Pick(7, 1)}, {"new", 100, 0, r.Pick(7, 1)}, {"stale-index", 4096, 0, r.Pick(7, 1)}, {"restore-same", 32769, 0, r.Pick(7, 1)}}
+		vlib.Parallel(len(icJobs), W, func(i int) { indexCuts(base, icJobs[i].scenario, icJobs[i].size, icJobs[i].seed, icJobs[i].stride) })
 		// hostile sources
 		nsf := r.Pick(600, 30000)
 		vlib.Parallel(W, W, func(w int) { sourceFaults(base, r.Rand(fmt.Sprintf("src-%d", w)), nsf/W) })
